@@ -1,6 +1,7 @@
 """C05 — the parallel (dask) COG writer produces a correct, overview-first GeoTIFF."""
 from __future__ import annotations
 
+import logging
 import math
 import os
 import random
@@ -16,6 +17,8 @@ from io import BytesIO
 import numpy as np
 
 from .common import Run, frac_s, guarded, list_s, opt_s, run_driver
+
+logging.getLogger("tifffile").setLevel(logging.CRITICAL)
 
 META = {
     "claimed": True,
@@ -152,6 +155,30 @@ def info_s(info) -> str:
 
 
 # --------------------------------------------------------------------------- independent oracles
+HUGE = [2**31 - 1, 2**31, 2**31 + 1, 2**32 + 7, 2**53 - 3, 2**53 - 1, 2**53, 2**53 + 1, 2**53 + 3, 2**63 - 1, 2**63,
+        2**64, 2**64 + 1, 2**100, 2**100 + 12345, 10**30 + 7]
+
+
+def huge(rng: random.Random) -> int:
+    """ints where a float detour (`int(math.ceil(x / k))`, `x / 2`) goes wrong"""
+    return rng.choice(HUGE) + rng.choice([0, 0, 1, -1, 3, 15, 16, 17, rng.randint(-1000, 1000)])
+
+
+def ceil_to(x: int, a: int) -> int:
+    return -(-x // a) * a
+
+
+def spec_oracle(y, x, ty, tx, mp):
+    """exact re-computation of compute_cog_spec's rule (pure ints)"""
+    t = (ceil_to(ty, 16), ceil_to(tx, 16))
+    n = max(least_k(t[0], y), least_k(t[1], x))
+    pad = 2**n
+    if mp is not None and mp < pad:
+        pad = 0 if mp == 0 else 1 << (mp.bit_length() - 1)
+    p = (y, x) if pad == 0 else (ceil_to(y, pad), ceil_to(x, pad))
+    return f"{p[0]} {p[1]} {t[0]} {t[1]} {n}"
+
+
 def least_k(block: int, dim: int) -> int:
     k = 0
     while dim // (2**k) > block:
@@ -206,13 +233,23 @@ def _imp():
     return M, S, T, GeoBox, wrap_xr
 
 
-def mk_gbox(rng: random.Random, ny: int, nx: int, GeoBox):
+def mk_gbox(rng: random.Random, ny: int, nx: int, GeoBox, dyadic: bool = True):
+    """dyadic=True: every coefficient is a short dyadic rational (exact through xarray coordinates and GDAL);
+    dyadic=False: realistic doubles (0.00025, 1/3, 30.000000001, origins at k ± 1e-9 …) — the float stream."""
     from affine import Affine  # pylint: disable=import-outside-toplevel
 
     crs = rng.choice(["epsg:3857", "epsg:4326", "epsg:32633", "epsg:3577"])
-    res = rng.choice([1, 10, 30, 0.5, 0.25, 2]) if crs != "epsg:4326" else rng.choice([0.25, 0.125, 1 / 1024])
-    x0 = rng.randint(-1000, 1000) * res
-    y0 = rng.randint(-100, 100) * res
+    if dyadic:
+        res = rng.choice([1, 10, 30, 0.5, 0.25, 2]) if crs != "epsg:4326" else rng.choice([0.25, 0.125, 1 / 1024])
+        x0 = rng.randint(-1000, 1000) * res
+        y0 = rng.randint(-100, 100) * res
+    else:
+        res = rng.choice([30.000000001, 1 / 3, 0.1, 9.999999999, 25 + 1e-10, 2.5e-4, 1e-5, 0.00025, 1 / 3600])
+        if crs != "epsg:4326":
+            res = rng.choice([30.000000001, 1 / 3, 0.1, 9.999999999, 25 + 1e-10, 12.3456789, 1e3 / 7])
+        k = rng.randint(-1000, 1000)
+        x0 = k + rng.choice([0, 1e-6, -1e-9, 1e-10, -1e-11, 1e-13, 2.0**-40, 0.5 - 1e-9, 0.1])
+        y0 = rng.randint(-80, 80) + rng.choice([0, 1e-6, -1e-9, 1e-10, 2.0**-40, 0.5 + 1e-13, 1 / 3])
     r = rng.random()
     if min(ny, nx) < 2:
         # a rotated GeoBox with a 1-pixel side does not survive geotiff_metadata()'s trip through xarray
@@ -254,8 +291,10 @@ def gen_cfg(rng: random.Random, big: bool):
     pred = rng.choice([None, True, False])
     if comp == "none" and pred is True:
         pred = False  # tifffile rejects "predictor without compression": not a supported configuration
-    if np.dtype(dt).kind == "f":
-        nodata = rng.choice([None, None, 0, -9999, float("nan")])
+    if dt == "float64":
+        nodata = rng.choice([None, None, 0, -9999, float("nan"), 1.7976931348623157e308, 5e-324, -1e308])
+    elif dt == "float32":
+        nodata = rng.choice([None, None, 0, -9999, float("nan"), 3.4028234663852886e38, float(np.float32(1 / 3))])
     elif dt == "uint8":
         nodata = rng.choice([None, None, 0, 7, 255])
     elif dt == "uint16":
@@ -276,7 +315,7 @@ def gen_cfg(rng: random.Random, big: bool):
         wpc=rng.choice([None, None, 1, 2, 3]), bigtiff=rng.choice([None, None, True, False]),
         stats=rng.choice([True, False, True]),
         sched=rng.choice(["sync", "threads1", "threads2", "threads4", "threads8", "rand", "rand", "rand"]),
-        pixseed=rng.randint(0, 10**6), level=rng.choice([None, None, 1, 9]),
+        pixseed=rng.randint(0, 10**6), level=rng.choice([None, None, 1, 9]), dyadic=rng.random() < 0.75,
     )
 
 
@@ -285,7 +324,7 @@ def build_input(cfg, GeoBox, wrap_xr):
 
     ny, nx = cfg["shape"]
     ax, ns, dt = cfg["axis"], cfg["ns"], np.dtype(cfg["dtype"])
-    gbox = mk_gbox(random.Random(cfg["pixseed"]), ny, nx, GeoBox)
+    gbox = mk_gbox(random.Random(cfg["pixseed"]), ny, nx, GeoBox, dyadic=cfg.get("dyadic", True))
     prng = np.random.default_rng(cfg["pixseed"])
     shp = (ny, nx) if ax == "YX" else ((ny, nx, ns) if ax == "YXS" else (ns, ny, nx))
     if dt.kind == "f":
@@ -344,7 +383,10 @@ def e2e(cfg, workdir: str, tag: str):
     _, _, T, GeoBox, wrap_xr = _imp()
     fails = []
     facts = {}
-    xx, pix, gbox, skw = build_input(cfg, GeoBox, wrap_xr)
+    xx, pix, gbox0, skw = build_input(cfg, GeoBox, wrap_xr)
+    gbox = xx.odc.geobox  # what the writer sees (identical to gbox0 on the dyadic stream)
+    if gbox is None or tuple(gbox.shape) != tuple(cfg["shape"]):
+        return facts, [("harness-geobox", "input array lost its geobox")]
     ny, nx = cfg["shape"]
     ax = cfg["axis"]
     fn = os.path.join(workdir, f"{tag}.tif")
@@ -473,8 +515,17 @@ def e2e(cfg, workdir: str, tag: str):
                 fails.append(("pixels-differ-gdal", f"{int(np.sum(got[:, :ny, :nx] != want))} pixels differ"))
             elif not (fill_eq(got[:, ny:, :], fill) and fill_eq(got[:, :, nx:], fill)):
                 fails.append(("padding-not-fill", f"right/bottom padding is not the fill value {fill}"))
-            if tuple(f.transform)[:6] != tuple(gbox.transform)[:6]:
-                fails.append(("transform-differs", f"{tuple(f.transform)[:6]} vs {tuple(gbox.transform)[:6]}"))
+            ft, gt = tuple(f.transform)[:6], tuple(gbox0.transform)[:6]
+            if cfg.get("dyadic", True):
+                t_ok = ft == gt
+            else:
+                # float stream: the transform travels through xarray coordinates (x0 + (i + .5) * res, absolute
+                # doubles) before GDAL sees it, so each coefficient is only good to a few ulps of the largest
+                # coordinate magnitude; documented slack: 16 ulp(max |coordinate|)  (≪ 1e-5 pixel over the image)
+                mag = max(abs(gt[2]), abs(gt[5]), 1.0) + (max(ny, nx) + 1) * (abs(gt[0]) + abs(gt[1]) + abs(gt[3]) + abs(gt[4]))
+                t_ok = all(abs(a - b) <= 16 * 2.0**-52 * mag for a, b in zip(ft, gt))
+            if not t_ok:
+                fails.append(("transform-differs", f"{ft} vs {gt}"))
             if f.crs is None or f.crs.to_epsg() != gbox.crs.epsg:
                 fails.append(("crs-differs", f"{f.crs} vs {gbox.crs}"))
             if not same_nodata(f.nodata, cfg["nodata"]):
@@ -559,6 +610,13 @@ def run(R: Run):
     for _ in range(R.pick(300, 3000)):
         b, d = rng.randint(1, 10**rng.randint(1, 6)), rng.randint(0, 10**rng.randint(1, 7))
         R.corr(f"c05 adj {b} {d}", lambda: str(S.adjust_blocksize(b, d)), sig="adj|large")
+    for _ in range(R.pick(300, 3000)):
+        b, d = rng.choice([huge(rng), rng.randint(1, 5000)]), rng.choice([huge(rng), 0, rng.randint(1, 5000)])
+        out = R.corr(f"c05 adj {b} {d}", lambda: str(S.adjust_blocksize(b, d)), sig="adj|huge")
+        R.oracle(out == str(ceil_to(d if 0 < d < b else b, 16)), "blocksize-not-mult16", {"block": b, "dim": d}, f"got {out}")
+        x, a = huge(rng), rng.choice([16, 2 ** rng.randint(0, 70), rng.randint(1, 10**6), huge(rng)])
+        out = R.corr(f"c05 alup {x} {a}", lambda: str(M.align_up(x, a)), sig="alup|huge")
+        R.oracle(out == str(ceil_to(x, a)), "align-up-inexact", {"x": x, "a": a}, f"align_up={out}, exact {ceil_to(x, a)}")
     for b in list(range(1, 40)) + [(a, c) for a in (1, 15, 16, 17, 100) for c in (5, 32, 33, 512)]:
         R.corr(f"c05 norm {blk_s(b)}", lambda: "%d %d" % S.norm_blocksize(b))
 
@@ -573,8 +631,14 @@ def run(R: Run):
         b, d = rng.choice([16, 256, 512, 1024, rng.randint(1, 5000)]), rng.randint(0, 10**rng.randint(1, 12))
         out = R.corr(f"c05 nov {b} {d}", lambda: str(S.num_overviews(b, d)), sig="nov|large")
         R.oracle(out == str(least_k(b, d)), "num-overviews-not-least", {"block": b, "dim": d}, out)
-    for x in list(range(0, 70)) + [2**k + e for k in range(7, 30) for e in (-1, 0, 1)]:
-        R.corr(f"c05 pow2 {x}", lambda: str(M.align_down_pow2(x)), sig="pow2")
+    for _ in range(R.pick(300, 3000)):
+        b, d = rng.choice([16, 256, 512, 1024, huge(rng)]), huge(rng)
+        out = R.corr(f"c05 nov {b} {d}", lambda: str(S.num_overviews(b, d)), sig="nov|huge")
+        R.oracle(out == str(least_k(b, d)), "num-overviews-not-least", {"block": b, "dim": d},
+                 f"num_overviews={out}, least k with dim//2^k<=block is {least_k(b, d)}")
+    for x in list(range(0, 70)) + [2**k + e for k in range(7, 110) for e in (-1, 0, 1)] + [huge(rng) for _ in range(50)]:
+        out = R.corr(f"c05 pow2 {x}", lambda: str(M.align_down_pow2(x)), sig="pow2")
+        R.oracle(out == str(0 if x == 0 else 1 << (x.bit_length() - 1)), "align-down-pow2-inexact", {"x": x}, out, trivial=x < 4)
 
     # ---- compute_cog_spec incl. max_pad
     def spec_case(y, x, ty, tx, mp):
@@ -585,7 +649,9 @@ def run(R: Run):
             res.append((p, t, n))
             return f"{p.y} {p.x} {t.y} {t.x} {n}"
 
-        R.corr(f"c05 spec {y} {x} {ty} {tx} {opt_s(mp)}", f, sig="spec|" + ("maxpad" if mp is not None else "plain"))
+        out = R.corr(f"c05 spec {y} {x} {ty} {tx} {opt_s(mp)}", f, sig="spec|" + ("maxpad" if mp is not None else "plain"))
+        R.oracle(out == spec_oracle(y, x, ty, tx, mp), "padded-shape-rule" if mp is None else "padded-shape-maxpad",
+                 {"shape": [y, x], "tile": [ty, tx], "max_pad": mp}, f"compute_cog_spec → {out}, exact rule → {spec_oracle(y, x, ty, tx, mp)}")
         if res and mp is None:
             p, t, n = res[0]
             bad = []
@@ -605,6 +671,10 @@ def run(R: Run):
         y, x = rng.randint(1, 10**rng.randint(1, 6)), rng.randint(1, 10**rng.randint(1, 6))
         ty, tx = rng.choice([16, 100, 256, 512, 1000]), rng.choice([16, 100, 256, 512, 1000])
         spec_case(y, x, ty, tx, rng.choice([None, None, 0, 1, 2, 3, 16, 31, 1000]))
+    for _ in range(R.pick(300, 3000)):
+        y, x = rng.choice([huge(rng), rng.randint(1, 10**6)]), huge(rng)
+        ty, tx = rng.choice([16, 100, 256, 512, huge(rng)]), rng.choice([16, 256, 512, 1000])
+        spec_case(y, x, ty, tx, rng.choice([None, None, None, 0, 1, 1000, huge(rng)]))
 
     # ---- yaxis_from_shape
     dims = [1, 2, 3, 4, 5, 8]
@@ -615,8 +685,11 @@ def run(R: Run):
                 shp = (a, b, c)
                 for g in [None, (a, b), (b, c), (a, c), (9, 9)]:
                     gb = None if g is None else GeoBox(g, Affine(1, 0, 0, 0, -1, 0), "epsg:3857")
-                    R.corr(f"c05 yaxis [{a},{b},{c}] {'N' if g is None else f'{g[0]};{g[1]}'}",
-                           lambda: "%s %d" % S.yaxis_from_shape(shp, gb), sig="yaxis|3d")
+                    out = R.corr(f"c05 yaxis [{a},{b},{c}] {'N' if g is None else f'{g[0]};{g[1]}'}",
+                                 lambda: "%s %d" % S.yaxis_from_shape(shp, gb), sig="yaxis|3d")
+                    if g is not None and ((a, b) == g) != ((b, c) == g):  # the GeoBox matches exactly one reading
+                        R.oracle(out == ("YXS 0" if (a, b) == g else "SYX 1"), "axis-order-wrong",
+                                 {"shape": [a, b, c], "gbox_shape": list(g)}, f"yaxis_from_shape → {out}")
     R.corr("c05 yaxis [2,2,2,2] N", lambda: "%s %d" % S.yaxis_from_shape((2, 2, 2, 2)), sig="yaxis|err")
     R.corr("c05 yaxis [2] N", lambda: "%s %d" % S.yaxis_from_shape((2,)), sig="yaxis|err")
 
@@ -633,7 +706,8 @@ def run(R: Run):
         m = mk_meta(ax, ns, y, x, ty, tx)
         metas_seen.append(m)
         s = meta_s(m)
-        R.corr(f"c05 ntiles {s}", lambda: f"{m.chunked.y} {m.chunked.x} {m.num_tiles}", sig="meta|ntiles")
+        out = R.corr(f"c05 ntiles {s}", lambda: f"{m.chunked.y} {m.chunked.x} {m.num_tiles}", sig="meta|ntiles")
+        R.oracle(out == f"{-(-y // ty)} {-(-x // tx)} {m.num_planes * -(-y // ty) * -(-x // tx)}", "tile-grid-count", {"meta": s}, out)
         R.corr(f"c05 tidx {s}", lambda: list_s(["%d;%d;%d" % t for t in m.tidx()]), sig="meta|tidx")
         sp = rng.randint(0, ns)
         R.corr(f"c05 tidxp {s} {sp}", lambda: list_s(["%d;%d;%d" % t for t in m.tidx(sp)]), sig="meta|tidx-plane")
@@ -643,6 +717,22 @@ def run(R: Run):
         for _ in range(6):
             t = (rng.randint(-1, m.num_planes), rng.randint(-1, m.chunked.y), rng.randint(-1, m.chunked.x))
             R.corr(f"c05 flat {s} {t[0]} {t[1]} {t[2]}", lambda: str(m.flat_tile_idx(t)), sig="meta|flat")
+    for _ in range(R.pick(300, 3000)):  # huge grids: pure integer arithmetic, nothing enumerated
+        ax = rng.choice(["YX", "YXS", "SYX"])
+        ns = 1 if ax == "YX" else rng.randint(1, 4)
+        y, x = huge(rng), rng.choice([huge(rng), rng.randint(1, 10**6)])
+        ty, tx = rng.choice([16, 256, 512, 1024]), rng.choice([16, 256, 512, 1024])
+        m = mk_meta(ax, ns, y, x, ty, tx)
+        s = meta_s(m)
+        cy_, cx_ = -(-y // ty), -(-x // tx)
+        out = R.corr(f"c05 ntiles {s}", lambda: f"{m.chunked.y} {m.chunked.x} {m.num_tiles}", sig="meta|ntiles-huge")
+        R.oracle(out == f"{cy_} {cx_} {m.num_planes * cy_ * cx_}", "tile-grid-count", {"meta": s}, out)
+        for _ in range(3):
+            t = (rng.randint(0, m.num_planes - 1), rng.choice([0, cy_ - 1, cy_, rng.randrange(cy_)]), rng.choice([0, cx_ - 1, cx_, -1, rng.randrange(cx_)]))
+            out = R.corr(f"c05 flat {s} {t[0]} {t[1]} {t[2]}", lambda: str(m.flat_tile_idx(t)), sig="meta|flat-huge")
+            inside = 0 <= t[1] < cy_ and 0 <= t[2] < cx_
+            R.oracle(out == (str(t[0] * cy_ * cx_ + t[1] * cx_ + t[2]) if inside else "ERR:IndexError"), "flat-idx-wrong",
+                     {"meta": s, "idx": list(t)}, out)
     for _ in range(R.pick(60, 600)):
         ns = rng.randint(1, 3)
         ax = "SYX" if ns > 1 else "YX"
@@ -700,7 +790,7 @@ def run(R: Run):
     for _ in range(R.pick(120, 1200)):
         y, x, ns = rng.randint(1, 300), rng.randint(1, 300), rng.randint(1, 5)
         blocks = [rng.choice([16, 32, 48, 100, (16, 64), (100, 20)]) for _ in range(rng.randint(1, 3))]
-        gb = mk_gbox(rng, y, x, GeoBox) if rng.random() < 0.7 else None
+        gb = mk_gbox(rng, y, x, GeoBox, dyadic=rng.random() < 0.5) if rng.random() < 0.7 else None
         shape = rng.choice([[y, x], [y, x, ns], [ns, y, x]])
         hdr_case(shape, gb, blocks, check_bytes=rng.random() < 0.2)
     hdr_case([8, 200], GeoBox((8, 200), A0, "epsg:3857"), [32])  # F18 replays
@@ -737,7 +827,9 @@ def run(R: Run):
         rng.shuffle(idx)
         if rng.random() < 0.5:
             idx = idx[: rng.randint(0, len(idx))]
-        tiles = [(i, p, y, x, rng.choice([0, rng.randint(1, 5000), rng.randint(1, 50)])) for i, p, y, x in idx]
+        big_sz = (not with_patch) and rng.random() < 0.3
+        tiles = [(i, p, y, x, rng.choice([0, rng.randint(1, 5000), rng.randint(1, 50)] + ([huge(rng)] if big_sz else [])))
+                 for i, p, y, x in idx]
         badid = rng.random() < 0.15
         if badid and tiles:
             k = rng.randrange(len(tiles))
@@ -763,6 +855,16 @@ def run(R: Run):
             got_ok = all(res[0][i][1][f_] == sz for (i, f_), sz in want.items())
             R.oracle(msg is None and got_ok, "tile-offsets-gaps-or-overlaps", {"metas": list_s(ms, meta_s), "start": start, "obs": obs},
                      msg or "byte count differs from observed size", sig=sig)
+            # exact, two-sided: every non-empty tile sits at start + (bytes observed before it), in stream order
+            pos, bad_at = start, None
+            for i, p, y, x, sz in tiles:
+                f_ = ms[i].flat_tile_idx((p, y, x))
+                if sz and res[0][i][0][f_] != pos:
+                    bad_at = (i, p, y, x, res[0][i][0][f_], pos)
+                    break
+                pos += sz
+            R.oracle(bad_at is None, "tile-offsets-not-stream-order", {"metas": list_s(ms, meta_s), "start": start, "obs": obs},
+                     f"tile/offset/expected {bad_at}", sig=sig)
         if with_patch and not badid:
             r2 = []
 
@@ -789,8 +891,8 @@ def run(R: Run):
         except Exception:  # pylint: disable=broad-except
             continue  # reported by hdr_case above
         hdr0 = bytes(hdr0)
-        for _ in range(3):
-            stream_case(meta, hdr0, with_patch=True)
+        for k_ in range(4):
+            stream_case(meta, hdr0, with_patch=k_ < 2)
 
     # ---- end to end: real save_cog_with_dask(...).compute() → file → tifffile + GDAL
     workdir = tempfile.mkdtemp(prefix="c05-")
